@@ -80,6 +80,12 @@ def run(res, tier, seed):
     open(cfg, "w").write("SPECIFICATION Spec\nCONSTANT MaxN = %d\nINVARIANT Inv\n" % (3 if quick else 4))
     r = vlib.tlc_mc(os.path.join(ROOT, "spec/mc/MC_Sort.tla"), cfg, name="c16mc", timeout=3000)
     res.add_mc(r, "MC_Sort (stable lexicographic total order, NaN first)")
+    # the implementation-shaped model: NodeSorter's multi-key comparison with its per-key, per-position caches and "not evaluated" marker
+    # values, driving a stable sort = the definition; "less" is a strict weak ordering; a key is evaluated once per node
+    cfg2 = os.path.join(wd, "MC_SortImpl.cfg")
+    open(cfg2, "w").write("SPECIFICATION Spec\nCONSTANTS MaxN = 3\n Full = %s\nINVARIANT Inv\nCHECK_DEADLOCK FALSE\n" % ("FALSE" if tier == "quick" else "TRUE"))
+    r2 = vlib.tlc_mc(os.path.join(ROOT, "spec/mc/MC_SortImpl.tla"), cfg2, name="c16mcimpl", timeout=3000, extra=["-noGenerateSpecTE"])
+    res.add_mc(r2, "MC_SortImpl (SortImpl: NodeSorter's cached multi-key comparison + stable sort = XSLT 10 for every key-value assignment to <= 3 nodes, 1-2 keys; strict weak ordering; caches honest; one evaluation per key and node)")
     ndocs = 40 if quick else 400
     docs = [gen_doc(rng, long_=(k % 8 == 7)) for k in range(ndocs)]
     flats = [xdm.flatten(t) for t in docs]
